@@ -244,6 +244,8 @@ def capacity_oracle(run, cases, co, cdrv):
     what_cap = "the helper's return value / stored cells depend on the capacity of the caller's array: expected return value = number of arcs, first min(capacity, n) cells = the first arcs, every other cell untouched"
     for (line, kind, pl), c in zip(cases, co):
         exp = None
+        if c == "SKIPPED":
+            continue
         if kind in ("cap_oid_get", "cap_reloid_get"):
             a, sl = pl
             exp = cells_line(a, sl)
@@ -309,41 +311,44 @@ def capacity_oracle(run, cases, co, cdrv):
 
 
 def correspond_resume(run, name, lines, model, cdrv, max_restarts=6):
-    """like vlib.correspond, but a sanitizer report does not hide the lines after it:
-    the offending line is found by bisection (the driver's stdout is block buffered, a
-    sanitizer exit loses it), recorded, and the run resumes behind it."""
+    """like vlib.correspond, but a sanitizer report does not hide the other lines: the
+    driver's stdout is block buffered and a sanitizer exit loses it, so the offending
+    line is found by bisection, recorded, and the run resumes behind it.  A
+    LeakSanitizer report (it comes at exit and also loses the output) is recorded with
+    the first leaking line, then the lines are run again with leak detection off."""
     rc_m, mo, me = run_lines(model, lines, timeout=900)
     if rc_m != 0 or len(mo) != len(lines):
         raise RuntimeError("model driver failed on %s: rc=%s lines=%d/%d %s" % (name, rc_m, len(mo), len(lines), me))
+    env = SAN_ENV
     co, start, restarts = [], 0, 0
     while start < len(lines):
-        rc, o, e = run_lines(cdrv, lines[start:], timeout=900, env=SAN_ENV)
+        rc, o, e = run_lines(cdrv, lines[start:], timeout=900, env=env)
         if rc == 0 and len(o) == len(lines) - start:
             co += o
             break
-        lo, hi = start, len(lines)          # smallest hi such that lines[start:hi] dies
+        lo, hi = start, len(lines) - 1          # smallest index lo such that lines[start:lo+1] dies
         ok_out = []
         while lo < hi:
             mid = (lo + hi) // 2
-            r2, o2, e2 = run_lines(cdrv, lines[start:mid + 1], timeout=900, env=SAN_ENV)
+            r2, o2, e2 = run_lines(cdrv, lines[start:mid + 1], timeout=900, env=env)
             if r2 == 0 and len(o2) == mid + 1 - start:
                 lo, ok_out = mid + 1, o2
             else:
                 hi, e = mid, e2
-        if lo >= len(lines):
-            # every prefix survives line by line: the report comes at exit (LeakSanitizer) or is order dependent
-            run.violation("crash:" + name, {"what": "C driver exits with a sanitizer report (rc=%s) that no single line reproduces — leak report at exit" % rc,
-                                            "command_line": None, "stderr_tail": e[-1500:]})
-            co += ok_out if len(ok_out) == len(lines) - start else o + ["CRASH"] * (len(lines) - start - len(o))
-            break
-        run.violation("crash:" + name, {"what": "C driver died — sanitizer report or signal", "command_line": lines[lo],
-                                        "stderr_tail": e[-1500:], "replay_cmd": "echo '%s' | <leafdrv built from the repository>" % lines[lo]})
-        co += ok_out[:lo - start] if len(ok_out) >= lo - start else ["CRASH"] * (lo - start)
+        leak = "LeakSanitizer" in e and "AddressSanitizer:" not in e.replace("SUMMARY: AddressSanitizer", "")
+        run.violation(("leak:" if leak else "crash:") + name,
+                      {"what": "memory leaked by the call (LeakSanitizer)" if leak else "C driver died — sanitizer report or signal",
+                       "command_line": lines[lo], "stderr_tail": e[-1500:],
+                       "replay_cmd": "echo '%s' | <leafdrv built from the repository>" % lines[lo]})
+        if leak:
+            env = dict(SAN_ENV, ASAN_OPTIONS=SAN_ENV["ASAN_OPTIONS"].replace("detect_leaks=1", "detect_leaks=0"))
+            continue
+        co += ok_out
         co.append("CRASH")
         start = lo + 1
         restarts += 1
         if restarts >= max_restarts:
-            co += ["CRASH"] * (len(lines) - len(co))
+            co += ["SKIPPED"] * (len(lines) - len(co))      # enough crash reports; the rest is not evaluated
             break
     return mo, co
 
@@ -402,8 +407,8 @@ def main(tier):
     # ---- faithfulness: model vs code
     for (line, kind, pl), m, c in zip(cases, mo, co):
         run.case(line, nontrivial=True)
-        run.count(kind)
-        if m != c:
+        run.count(kind if c != "SKIPPED" else "skipped_after_crashes")
+        if m != c and c != "SKIPPED":
             run.count("model_vs_code_diff")
             run.violation("correspondence:%s(%s)" % (model_file(kind), line.split()[0]),
                           {"what": "model and C disagree", "command_line": line, "model": m, "c": c, "_pending": True})
@@ -413,6 +418,8 @@ def main(tier):
     # ---- property oracle on the C outputs, OID
     q2 = []
     for (line, kind, a), c in zip(cases, co):
+        if c == "SKIPPED":
+            continue
         if kind == "oid_set":
             if len(a) < 2:
                 exp = "EINVAL"
@@ -466,8 +473,8 @@ def main(tier):
     mo2, co2 = correspond_resume(run, "leaf-C17-capacity", [c[0] for c in cap_m], model, cdrv)
     for (line, kind, pl), m, c in zip(cap_m, mo2, co2):
         run.case(line, nontrivial=True)
-        run.count(kind)
-        if m != c:
+        run.count(kind if c != "SKIPPED" else "skipped_after_crashes")
+        if m != c and c != "SKIPPED":
             run.count("model_vs_code_diff")
             run.violation("correspondence:%s(%s)" % (model_file(kind), line.split()[0]),
                           {"what": "model and C disagree", "command_line": line, "model": m, "c": c, "_pending": True})
@@ -487,6 +494,9 @@ def main(tier):
             v["no_failing_input_found"] = v["command_line"] not in oracle_lines
     # replays are written for the first 20 violations: failing inputs first
     run.violations.sort(key=lambda v: (0 if v["kind"].startswith("oracle:") else 1 if not v.get("no_failing_input_found") else 2))
+    vk = {}
+    for v in run.violations:
+        vk[v["kind"]] = vk.get(v["kind"], 0) + 1
     tb = ["Coq 8.16.1 kernel + vm_compute (Examples, refuted witnesses, one finite sweep of the 400-year cycle if stated)",
           "axioms under Print Assumptions: " + (", ".join(sorted(axioms)) or "none (Closed under the global context)"),
           "extraction: ExtrOcamlBasic only; OCaml 4.13.1; zarith for decimal I/O in the driver glue",
@@ -495,7 +505,7 @@ def main(tier):
           "LP64 data model, 64-bit time_t"]
     return run.finish("proof", (nthm, ndis), trusted_base=tb,
                       checker_cmd="make -C /verif all && coqc -Q coq A1 coq/Props/Properties_C17.v",
-                      extra_cov={"theorems": names, "zones": run.notes,
+                      extra_cov={"theorems": names, "zones": run.notes, "violation_kinds": vk,
                                  "rule": "arc vectors of length 0..12 over the boundary set x random, every valid/invalid first-pair class; octet strings with 0x80 leads, 5..7-octet subidentifiers, truncations; dotted texts per state transition; times at year boundaries, leap days, -1, +-2^31, random, under each zone; a case is one command line",
                                  "traces_validated_against_impl": len(lines)},
                       assumptions=["models of OBJECT_IDENTIFIER.c / RELATIVE-OID.c / GeneralizedTime.c / UTCTime.c are hand-written; tied by differential run only on the generated cases",
@@ -708,6 +718,8 @@ def time_oracle(run, cases, co, cdrv):
     q = []
     c_of = {line: c for (line, kind, pl), c in zip(cases, co)}
     for (line, kind, pl), c in zip(cases, co):
+        if c == "SKIPPED":
+            continue
         if kind in ("gt_opt", "ut_opt"):
             run.count("time_opt_prev_" + line.split()[-1])
             if c != c_of.get(pl):
